@@ -21,7 +21,7 @@ def main():
     except translate.TranslateError as ex:
         print("translator:", ex)
     # generated files that are not written by translate.py (PrimFloat twins of translated kernels, the flag table of C06)
-    for modname, fn in (("c07", "gen_float_twin"), ("c19", "gen_float_twin"), ("c06", "gen_flags"), ("c19_params", "generate")):
+    for modname, fn in (("c07", "gen_float_twin"), ("c19", "gen_float_twin"), ("c06", "gen_flags"), ("c19_params", "generate"), ("c07", "gen_q_twin")):
         try:
             getattr(importlib.import_module(modname), fn)()
         except Exception as ex:  # noqa
